@@ -57,6 +57,8 @@ def schedules(pid, tier, seed):
             bub.append(g.receiver(nid(), wrap=[253, 255, 256][i % 3] if i % 5 == 4 else 0, tcp=(i % 7 == 6), group=(i % 9 == 8)))
         for i in range(0 if q else 4):
             bub.append(g.receiver(nid(), n=1000))
+        for i in range(8 if q else 40):
+            bub.append(g.ackfail_order(nid()))
     elif pid == 'C05':
         n = 60 if q else 400
         for i in range(n):
@@ -73,6 +75,8 @@ def schedules(pid, tier, seed):
             bub.append(g.heartbeat(nid()))
         for status in ([0, 0x21, 0x22, 0x23, 0x24, 0x25, 0x26, 0x27, 0x29, 0x99] if q else list(range(0, 256))):
             bub.append(g.hb_foreign(nid(), status))   # (foreign-channel frames of every status while a heartbeat is pending)
+        for i in range(10 if q else 60):   # transient write errors of DiscRes / ConnStateReq / ConnReq
+            bub.append(g.writefail_conn(nid()))
         for i in range(8 if q else 48):
             real.append(g.senders_rt(nid(), reconnect=True))
     elif pid == 'C10':
@@ -82,6 +86,8 @@ def schedules(pid, tier, seed):
             bub.append(g.with_close(fams[i % 4](nid())))
         for i in range(4 if q else 24):
             bub.append(g.close_in_reconnect(nid()))
+        for i in range(6 if q else 30):   # Close with 20..80 accepted telegrams still parked (nobody reads Inbound)
+            bub.append(g.close_with_parked(nid(), [33, 48, 20, 64, 80, 40][i % 6]))
         for i in range(4 if q else 16):
             bub.append(g.close_on_channel(nid(), [0, 255, 0, 1][i % 4]))
         for i in range(3 if q else 12):
@@ -90,6 +96,10 @@ def schedules(pid, tier, seed):
         n = 60 if q else 300
         for i in range(n):
             bub.append(g.burst(nid(), 2 + (i * 7) % 63, ['ready', 'stalled', 'intermittent'][i % 3], group=(i % 5 == 4), tcp=(i % 11 == 10)))
+        for i in range(10 if q else 60):   # a ready application, one failed acknowledgement write, repetitions of later telegrams
+            bub.append(g.ackfail_order(nid(), group=(i % 3 == 2)))
+        for i in range(10 if q else 60):   # the adversarial request streams of C04 (write errors, repetitions, reconnects) are judged for order too
+            bub.append(g.receiver(nid(), n=25, group=(i % 4 == 3)))
     # directed schedules (replays of earlier witnesses)
     dpath = os.path.join(vlib.VERIF, 'sched', pid.lower() + '_directed.ndjson')
     if os.path.exists(dpath):
